@@ -41,6 +41,12 @@ DUMP_FN = r'''D() {
 '''
 
 
+# `exec <external command>`: in a subshell it must stay there; only the parent's own `exec` replaces the shell
+EXEC_FORMS = {"true": "exec /bin/true", "echo": "exec /bin/echo x", "false": "exec /bin/false",
+              "nosuch": "exec nosuchcmd_c12", "arg0": "exec -a name /bin/true",
+              "cmd": "command exec /bin/echo x", "blt": "builtin exec /bin/echo x"}
+
+
 def render_mut(tok, root):
     p = tok.split(":")
     k = p[0]
@@ -96,6 +102,8 @@ def render_mut(tok, root):
         return "true"
     if k == "ec":
         return "echo %s" % p[1]
+    if k == "xc":
+        return EXEC_FORMS[p[1]]
     raise ValueError(tok)
 
 
@@ -391,6 +399,7 @@ ALPHABET = (
     + ["sa:x,y", "sa:z", "sa:-", "sf"]
     + ["fd:7:o", "fd:8:i", "fd:7:c", "fd:8:c", "fd:3:o"]
     + ["xi:3", "xi:0", "fa", "tu", "ec:hello"]
+    + ["xc:" + k for k in EXEC_FORMS]
 )
 PRESETS = [
     [],
@@ -436,7 +445,8 @@ def own_filter(c, par, sub, changes, bc, mc):
 
 CF_BODIES = [["xi:7"], ["xi:0"], ["br"], ["co"], ["rt:4"], ["rt:0"], ["fa"], ["tu"], ["as:v1:q"], ["cd:nx"], ["ec:hello"],
              ["um:027"], ["so:errexit:1", "fa"], ["so:errexit:1", "cd:nx", "as:v1:q"], ["as:v1:q", "xi:7"], ["ec:hello", "br"],
-             ["cd:..", "rt:4"], ["fn:f1:B", "co"], ["al:a1:colon", "sa:z", "xi:3"], ["fa", "rt:2", "ec:hello"]]
+             ["cd:..", "rt:4"], ["fn:f1:B", "co"], ["al:a1:colon", "sa:z", "xi:3"], ["fa", "rt:2", "ec:hello"],
+             ["xc:echo"], ["xc:true", "as:v1:q"], ["so:errexit:1", "xc:false", "as:v1:q"], ["xc:arg0", "xc:cmd", "br"]]
 CF_MUTS = ["br", "co", "rt:4", "rt:0", "so:errexit:1", "xi:7"]
 
 
@@ -456,6 +466,9 @@ def parse_resp(line):
 def canon_brush(resp, ctxname):
     """Harness response -> comparable dict + list of parent changes (the property on brush)."""
     d = parse_resp(resp)
+    if resp.strip() == "DIED":
+        return None, ["the shell's own process ended or was replaced while it ran the context (it hangs up): "
+                      "an `exec`/`exit` of a subshell reached the process"]
     if resp.strip() == "TIMEOUT":
         return None, ["the parent shell did not come back from the subshell context in time (it hangs)"]
     if "st" not in d:
@@ -573,14 +586,14 @@ def gen_cases(ctx):
     for _ in range(ctx.size(1500, 12000)):
         c = rng.choice(CTXS + BGW[::2] + BGW[1::2][:3])
         pre = [rng.choice(ALPHABET) for _ in range(rng.randint(0, 8))]
-        pre = [t for t in pre if not t.startswith("xi:") and not t.startswith("ec:")]   # the parent neither leaves nor prints
+        pre = [t for t in pre if not t.startswith(("xi:", "ec:", "xc:"))]   # the parent neither leaves, prints, nor execs
         sub = [rng.choice(ALPHABET) for _ in range(rng.randint(1, 8))]
         if c.startswith("bgw-"):     # the job's body may also end through control flow
             sub = [rng.choice(CF_MUTS) if rng.random() < 0.3 else t for t in sub]
         cases.append(("rand", c, pre, sub))
     out = []
     for kind, c, par, sub in cases:
-        if c == "pl" and sub and sub[-1].startswith("xi:") and (lastpipe_on(par) or len(sub) == 1):
+        if c == "pl" and sub and sub[-1].startswith(("xi:", "xc:")) and (lastpipe_on(par) or len(sub) == 1):
             sub = sub[:-1] + ["fa"]          # `exit` as the parent's own last stage would end the parent: not a subshell
         if c == "pl" and len(sub) >= 2 and sub[-1].startswith("fd:") and lastpipe_on(par):
             # brush: `exec` inside `… | { exec N>f; }` also keeps the stage's pipe as the shell's stdin for good
@@ -600,12 +613,33 @@ def gen_cases(ctx):
     return out
 
 
+def run_vh_resilient(lines, workers, env=None):
+    """Like lib.run_vh_parallel, but a harness process that ends early (the shell under test replaced or
+    killed its own process: a real execve reaching the parent) costs one case, reported as DIED; the
+    rest of its share is run by a fresh process."""
+    def share(part):
+        outs = []
+        while len(outs) < len(part):
+            rc, out, err = lib.run_vh(BIN, part[len(outs):], env=env)
+            good = []
+            for o in out:
+                if o.startswith(("st=", "TIMEOUT", "PANIC", "bad-request", "setup-error", "serde-error")):
+                    good.append(o)
+                else:
+                    break
+            outs.extend(good)
+            if len(outs) < len(part):
+                outs.append("DIED")         # the case after the last good answer
+        return outs[:len(part)]
+    parts = lib.chunked(lines, workers)
+    res = lib.pmap(share, parts, workers=workers)
+    return [o for r in res for o in r]
+
+
 def run_inproc(ctx, root):
     cases = gen_cases(ctx)
     reqs = [vh_request(root, c, par, sub) for _, c, par, sub in cases]
-    okh, bouts, errs = lib.run_vh_parallel(BIN, reqs, workers=min(lib.NCPU, 8))
-    if not okh:
-        ctx.broken.append("harness c12 died: " + errs[:500])
+    bouts = run_vh_resilient(reqs, workers=min(lib.NCPU, 8))
     # a context that did not come back in time: the machine may just be busy — ask again, with a long fixed limit
     late = [i for i, b in enumerate(bouts) if b.strip() == "TIMEOUT"]
     if late:
@@ -637,7 +671,7 @@ def run_inproc(ctx, root):
         if bc is None:
             if nviol < 20:
                 nviol += 1
-                hang = any("hangs" in x for x in changes)
+                hang = any("hangs" in x or "hangs up" in x for x in changes)
                 ctx.violation(("" if hang else "harness could not run the case: ") + "; ".join(changes), case,
                               kind="property" if hang else "correspondence")
             continue
